@@ -245,7 +245,7 @@ PROPS["C09"] = {
 PROPS["C10"] = {
     "level": "exploration",
     "engine": "vsched",
-    "level_text": "1-3 client threads, each with a Future<void>, a Future<int> and a Future<String>, run generated programs (start with 0-3 arguments and member functions, join, result conversion, destroy, abort, state queries, virtual sleeps that open the worker-retirement window) against freshly installed worker pools of generated size (min 0-2, max 3-5, queue capacity 1/2/4/256; 15% of the cases use the lazily created global pool) under sampled schedules of the deterministic scheduler; decision points at every atomic / volatile access of the lock-free queue, the FastSignal flags and the Signal / Mutex calls",
+    "level_text": "1-3 client threads, each with a Future<void>, a Future<int> and a Future<String>, run generated programs (start through every overload: free functions with 0-5 and member functions with 0-4 parameters, join, result conversion, destroy, abort, state queries, virtual sleeps that open the worker-retirement window) against freshly installed worker pools of generated size (min 0-2, max 3-5, queue capacity 1/2/4/256; 25% of the cases use the lazily created global pool) under sampled schedules of the deterministic scheduler; decision points at every atomic / volatile access of the lock-free queue, the FastSignal flags and the Signal / Mutex calls",
     "level_note": "trusted: vsched/rt.cpp (sequential consistency at instrumented granularity, virtual time, modelled pthread primitives), execution counters of the started functions; the harness TU includes src/Future.cpp with -fno-access-control to construct pools; schedules are sampled; 'eventually' = no deadlock verdict and completion within the step bound (a step-bound hit is inconclusive)",
     "technique": "randomised deterministic scheduling (schedule = generated input) of generated client programs over generated pool configurations, with execution-count and result oracles and deadlock detection",
     "rule": "case = pool configuration, 1-3 client programs, 6 schedules (40 when replaying) cycling through uniform / few-preemptions / PCT / round-robin strategies. Oracle: when join / destructor / conversion / restart returns the call has run exactly once with the given arguments, the converted value is the function's return value, isAborted() only after abort(), otherwise isFinished(); at the end every call ran exactly once; no deadlock and no livelock (a thread polling for ever while nobody else can run, e.g. on the pool-creation spin lock); nothing leaked after the pool is destroyed. 20% of the cases are grow / idle past the retirement time / start-together scenarios over several rounds. "
